@@ -95,10 +95,10 @@ def oracle(ctx, rng, n):
         d = str(ctx.work / ("p%d" % ci))
         try:
             inp, r = gi.build_reactor(case, d)
+            gi.sweep(r)
         except SystemExit:
             ctx.count("rejected")
             continue
-        gi.sweep(r)
         ctx.evals += 1
         ctx.count("aligned" if aligned else "unaligned")
         ex = exact_power(case)
@@ -183,10 +183,10 @@ def linearity(ctx, rng, n):
             d = str(ctx.work / ("l%d" % ci))
             try:
                 inp, r = gi.build_reactor(case, d)
+                gi.sweep(r)
             except SystemExit:
                 out = None
                 break
-            gi.sweep(r)
             a = r.assemblies[0]
             out.append((a.active_region.temp['coolant_int'].copy(), a.temp_duct_mw.copy(), float(r.inlet_temp), len(r.z)))
             import shutil
